@@ -69,6 +69,13 @@ func isAppend(v ssa.Value) *ssa.Call {
 // accumulatorAppends walks a loop accumulator (phi chain) and returns the append calls feeding it;
 // ok=false if anything else flows in.
 func accumulatorAppends(v ssa.Value) (apps []*ssa.Call, ok bool) {
+	// a variable captured by a closure lives in a heap cell: look at every store into that cell, in the
+	// function and in the closures that capture it
+	if ld, isLoad := v.(*ssa.UnOp); isLoad {
+		if al, isAlloc := ld.X.(*ssa.Alloc); isAlloc {
+			return cellAppends(al)
+		}
+	}
 	seen := map[ssa.Value]bool{}
 	ok = true
 	var walk func(x ssa.Value)
@@ -102,6 +109,54 @@ func accumulatorAppends(v ssa.Value) (apps []*ssa.Call, ok bool) {
 		}
 	}
 	walk(v)
+	return
+}
+
+// cellAppends: every store into the cell (directly or through the free variable of a closure that captures it)
+// stores append(<load of the cell>, ...) or nil.
+func cellAppends(al *ssa.Alloc) (apps []*ssa.Call, ok bool) {
+	ok = true
+	cells := []ssa.Value{al}
+	for _, ref := range *al.Referrers() {
+		if mc, isMC := ref.(*ssa.MakeClosure); isMC {
+			fn := mc.Fn.(*ssa.Function)
+			for i, b := range mc.Bindings {
+				if b == ssa.Value(al) && i < len(fn.FreeVars) {
+					cells = append(cells, fn.FreeVars[i])
+				}
+			}
+		}
+	}
+	isCell := func(v ssa.Value) bool {
+		for _, c := range cells {
+			if c == v {
+				return true
+			}
+		}
+		return false
+	}
+	for _, c := range cells {
+		for _, ref := range *c.Referrers() {
+			st, isStore := ref.(*ssa.Store)
+			if !isStore || st.Addr != c {
+				continue
+			}
+			if k, isK := st.Val.(*ssa.Const); isK && k.IsNil() {
+				continue
+			}
+			app := isAppend(st.Val)
+			if app == nil {
+				ok = false
+				continue
+			}
+			ld, isLoad := app.Call.Args[0].(*ssa.UnOp)
+			if !isLoad || !isCell(ld.X) {
+				ok = false
+				continue
+			}
+			apps = append(apps, app)
+		}
+	}
 	return
 }
 
